@@ -708,3 +708,22 @@ func WithDataBits(r *rand.Rand, p *seccomp.Policy) int {
 	}
 	return n
 }
+
+// AddDataBits keeps every group's action class and puts data into the low 16 bits of some of them (what the action
+// does to a syscall stays the same kind of thing: a child that must survive its own filter still does).
+func AddDataBits(r *rand.Rand, p *seccomp.Policy) int {
+	n := 0
+	for gi := range p.Syscalls {
+		if r.Intn(2) == 0 {
+			continue
+		}
+		data := []uint32{1, 2, 5, 13, 38, 0x7f, 0xff, 0x100, 0xfff, 0x1000, 0xffff, uint32(r.Intn(0x10000))}[r.Intn(12)]
+		a := seccomp.Action(uint32(p.Syscalls[gi].Action)&^0xffff | data)
+		if Enc(a) == Enc(p.DefaultAction) {
+			a ^= 2
+		}
+		p.Syscalls[gi].Action = a
+		n++
+	}
+	return n
+}
